@@ -422,7 +422,7 @@ pub fn run_close(ctx: &mut Ctx, scn: &StoreScn) {
     // a worker that is still alive then is waiting for a timer or will never exit
     {
         let calls_total: u64 = fsim::with_fs(ctx.sim, |fs| fs.log.len() as u64);
-        let slack = max_lat.saturating_mul(calls_total.min(10_000)) + 1_000_000;
+        let slack = max_lat.saturating_mul(calls_total.min(10_000)) + 50_000_000;
         let limit = ctx.sim.now_ns() + slack;
         ctx.sim.wait_quiescent(ctx.me, limit);
         let stuck: Vec<usize> = bg_threads(ctx).into_iter().filter(|t| !ctx.sim.thread_finished(*t)).collect();
@@ -450,7 +450,8 @@ pub fn run_close(ctx: &mut Ctx, scn: &StoreScn) {
                     // slack: latency injected into calls the worker (or a merge/sync already
                     // running) still had to make after the drop
                     let calls_after: u64 = fsim::with_fs(ctx.sim, |fs| fs.log.iter().filter(|r| r.seq > *seq_drop).count() as u64);
-                    let slack = max_lat.saturating_mul(calls_after.min(10_000)) + 1_000;
+                    // "promptly": 50 simulated milliseconds, plus the disk latency still owed
+                    let slack = max_lat.saturating_mul(calls_after.min(10_000)) + 50_000_000;
                     if t_exit > *t_drop + slack {
                         ctx.viol(
                             "worker-exit-not-prompt",
